@@ -55,4 +55,13 @@ def stream (seed : UInt32) (count : Nat) : List UInt32 :=
   ((List.range count).foldl (fun (acc : List UInt32 × List UInt32) _ =>
     (temper (acc.2.headD 0) :: acc.1, step acc.2)) ([], w0)).1.reverse
 
+/-- the outputs that follow a state whose 624 cells are `w` and whose read position is `index`:
+the cells from `index` on are tempered as they stand, then the recurrence takes over
+(the reference recurrence started from an arbitrary window) -/
+def streamFrom (w : List UInt32) (index count : Nat) : List UInt32 :=
+  -- window k = [x_k … x_{k+n-1}], x_i = w[i] for i < n; output j is temper x_{index + j}
+  let w0 := (List.range index).foldl (fun w _ => step w) w
+  ((List.range count).foldl (fun (acc : List UInt32 × List UInt32) _ =>
+    (temper (acc.2.headD 0) :: acc.1, step acc.2)) ([], w0)).1.reverse
+
 end ScadVerif.Spec.MT
